@@ -298,11 +298,12 @@ def interpolate_bad_channels(
         weights = gp.exp(-((offset / kriging_distance_um) ** p))
         weights[bad_channels] = 0
         weights[weights < 0.005] = 0
-        weights = weights / gp.sum(weights)
-        imult = gp.where(weights > 0.005)[0]
+        # the support is selected once, on the raw weights, and normalised afterwards so that the weights sum to one
+        imult = gp.where(weights > 0)[0]
         if imult.size == 0:
             data[i, :] = 0
             continue
+        weights = weights / gp.sum(weights)
         data[i, :] = gp.matmul(weights[imult], data[imult, :])
     # from viewephys.gui import viewephys
     # f = viewephys(data.T, fs=1/30, h=h, title='interp2')
